@@ -9,6 +9,7 @@ import (
 	"net"
 	"os"
 	"sync"
+	"syscall"
 	"time"
 )
 
@@ -61,7 +62,8 @@ type Conn struct {
 	// OnRead is called with the number of bytes consumed so far (for "afterwards" accounting)
 }
 
-var errInjected = errors.New("injected I/O failure")
+// the injected failure is what a broken TCP connection gives: a net.Error that is neither a timeout nor temporary
+var errInjected error = &net.OpError{Op: "write", Net: "tcp", Err: syscall.EPIPE}
 
 // Pipe creates a connected pair with the given buffer capacity per direction.
 func Pipe(capacity int) (*Conn, *Conn) {
